@@ -64,6 +64,8 @@ struct Plan {
 	int audit_every = 0;      // >0: /proc/self/maps audit after every n-th op
 	bool fullmem_model = false; // shipped configuration: the fresh-object model may build a second full dataset
 	uint64_t items = 0;       // dataset item count of the configuration the plan was generated for (0 = unknown)
+	bool cold = false;        // first history of a process that ran no warm-up: no reference-model call is made before the history has run
+	                          // (the library's one-time initialisations then happen inside the history - under its threads and faults)
 	uint64_t warmup_seed = 0; // != 0: the per-process warm-up history of the worker that ran this plan entered its hash calls under environments drawn from this seed (C13: the FIRST call of a process may come from any environment too)
 	std::string note;
 };
